@@ -123,7 +123,14 @@ class ExprMixin:
         npush = 0
         try:
             for e in node.values:
-                v = truth(self.ev(e, st))
+                try:
+                    v = truth(self.ev(e, st))
+                except PathEnd:
+                    if self.spec_mode or not npush:
+                        raise
+                    # the operand is undefined under the guards collected so far: those guards cannot all hold here
+                    st.assume(z3.Not(z3.And(*self.guards[-npush:])))
+                    return False if is_and else True
                 if is_and and v is False:
                     return False
                 if (not is_and) and v is True:
@@ -217,16 +224,33 @@ class ExprMixin:
             return self.ev(node.body, st)
         if c is False:
             return self.ev(node.orelse, st)
+        # an operand that cannot be evaluated (its guarded obligation says why) only removes its own case
+        dead_a = dead_b = False
+        a = b = None
         self.guards.append(zbool(c))
         try:
             a = self.ev(node.body, st)
+        except PathEnd:
+            if self.spec_mode:
+                raise
+            dead_a = True
         finally:
             self.guards.pop()
         self.guards.append(z3.Not(zbool(c)))
         try:
             b = self.ev(node.orelse, st)
+        except PathEnd:
+            if self.spec_mode or dead_a:
+                raise
+            dead_b = True
         finally:
             self.guards.pop()
+        if dead_a:
+            st.assume(z3.Not(zbool(c)))
+            return b
+        if dead_b:
+            st.assume(zbool(c))
+            return a
         return ite(c, a, b)
 
     def need_num(self, v, node):
